@@ -15,7 +15,7 @@ Lemma notify_cond_unfold : forall g t fin draw g' rel canc,
   tg_ok g = true /\ In t (tg_nodes g) /\ tg_complete g t = true /\ probs_refused g t = false /\
   exists k, nth_z (tg_children g t) draw = Some k /\ rel = [k] /\
             notify_moved_beyond (tg_state g k) = false /\
-            choose_loop (tg_children g t) k fin g [] = (g', Ok canc).
+            choose_loop t (tg_children g t) k fin g [] = (g', Ok canc).
 Proof.
   intros g t fin draw g' rel canc H Hc Hz. unfold notify_completion in H.
   destruct (tg_ok g && zmem t (tg_nodes g)) eqn:E1; cbn [negb] in H; [|discriminate].
@@ -26,7 +26,7 @@ Proof.
   fold (nth_z (tg_children g t) draw) in H.
   destruct (nth_z (tg_children g t) draw) as [k|] eqn:E4; [|discriminate].
   destruct (notify_moved_beyond (tg_state g k)) eqn:E5; [discriminate|].
-  destruct (choose_loop (tg_children g t) k fin g []) as [g1 [cs|e]] eqn:E6; [|discriminate].
+  destruct (choose_loop t (tg_children g t) k fin g []) as [g1 [cs|e]] eqn:E6; [|discriminate].
   inversion H; subst. repeat split; auto. exists k. auto.
 Qed.
 
@@ -58,12 +58,12 @@ Qed.
 Theorem notify_join : forall g t fin draw g' rel canc,
   notify_completion g t fin draw = (g', Ok (rel, canc)) -> tg_conditional g t = true ->
   all_children_zero g t = false -> cancel_closed g ->
-  forall j, tg_terminal g j = true -> (forall u, In u (tg_children g t) -> ~ In u rel -> u <> j) ->
-  (exists p, In p (tg_parents g j) /\ tg_state g' p <> TS_CANCELLED) -> tg_state g' j = tg_state g j.
+  forall j, tg_terminal g j = true ->
+  (exists p, In p (tg_parents g j) /\ p <> t /\ tg_state g' p <> TS_CANCELLED) -> tg_state g' j = tg_state g j.
 Proof.
-  intros g t fin draw g' rel canc H Hc Hz CC j Hj Hnu Hlive.
+  intros g t fin draw g' rel canc H Hc Hz CC j Hj Hlive.
   destruct (notify_cond_unfold _ _ _ _ _ _ _ H Hc Hz) as (_ & _ & _ & _ & k & Hk & Hr & _ & Hl).
-  subst rel. eapply choose_loop_join; eauto. intros u Hu Hne. apply Hnu; auto. intros [A|[]]. congruence.
+  eapply choose_loop_join; eauto.
 Qed.
 
 Theorem notify_behind_join : forall g t fin draw g' rel canc,
